@@ -1528,6 +1528,10 @@ def isolated_each(fn, args_list, deadline_s=180):
         if pid == 0:  # child
             code = 0
             try:
+                if os.environ.get("C20_DEBUG_CHILD"):
+                    import faulthandler
+
+                    faulthandler.dump_traceback_later(6, repeat=False)
                 os.close(rfd)
                 for args in args_list[i:]:
                     try:
